@@ -27,6 +27,7 @@ type schedCfg struct {
 	startDay, endDay time.Weekday
 	loc        *time.Location
 	locName    string
+	fullWeek   bool
 }
 
 var dayNames = []string{"Sunday", "Monday", "Tuesday", "Wednesday", "Thursday", "Friday", "Saturday"}
@@ -76,7 +77,9 @@ func (c schedCfg) in(t time.Time) (bool, string) {
 	e := int(c.endDay)*86400 + c.end
 	w := int(wd)*86400 + x
 	inside := false
-	if s <= e {
+	if c.fullWeek {
+		inside = true
+	} else if s <= e {
 		inside = w >= s && w <= e
 	} else {
 		inside = w >= s || w <= e
@@ -192,6 +195,14 @@ func runC18(env *Env, tier string) {
 		sc.weekly = true
 		sc.startDay = time.Weekday(ch.Choose("startday", 7))
 		sc.endDay = time.Weekday(ch.Choose("endday", 7))
+		if ch.Chance("fullweek", 1, 5) {
+			// the common "one session per week" set-up: same day, same time: a week-long window that
+			// rolls over at StartDay/StartTime
+			sc.endDay = sc.startDay
+			sc.end = sc.start
+			extra[config.EndTime] = fmtTod(sc.end)
+			sc.fullWeek = true
+		}
 		extra[config.StartDay] = dayNames[sc.startDay]
 		extra[config.EndDay] = dayShort[sc.endDay]
 	}
